@@ -117,6 +117,8 @@ def slides_rename_facts(prog):
     a = ren[0].args[0]
     if isinstance(a, ast.Name) and a.id in val:
         a = val[a.id]
+    while isinstance(a, ast.Call) and dotted(a.func) in ("list", "tuple") and len(a.args) == 1:
+        a = a.args[0]   # same elements, same order
     if isinstance(a, ast.Attribute) and not isinstance(a, (ast.ListComp, ast.GeneratorExp)):
         # `<list>.rIds`: a property of the (typed) id list that returns the comprehension over itself
         from sa import inline as _inl
